@@ -63,13 +63,14 @@ def wire_oracle(d, lan, client_addr, server_addr):
 @meta(bounds="two complete stacks on the fault-injecting LAN, max APDU S both sides (segment size S), proposed windows "
              "wc/ws, retries 3; request and response payloads of the instance's lengths with EVERY octet symbolic; nf "
              "faults each at a symbolic frame index 0..horizon with kind symbolic in the instance's kind set "
-             "(drop / duplicate / hold-and-release-after-1-or-2-later-frames)",
+             "(drop / duplicate / hold-and-release-after-1-or-2-later-frames); APDU timeout 3 s, segment timeout 1.5 s, or "
+             "the library's default 5 s where the instance says Tseg5000",
       outside="more than nf faults, fault positions beyond `horizon`, S other than the instance's, payloads of more "
               "than 4 segments in the scenario harness (seg_step covers long transfers and wrap-around)",
       stubs=["virtual clock (task._time)", "asyncore.loop -> clock advance", "task._Trigger -> wake flag",
              "fresh singletons per path", "vlan.Network.process_pdu subclassed with a fault schedule"],
       assumes=["processing takes zero virtual time", "a held (delayed) frame is eventually delivered"])
-def seg_payload(d, S, wc, ws, req, resp, nf, kinds, horizon, retries=3):
+def seg_payload(d, S, wc, ws, req, resp, nf, kinds, horizon, retries=3, seg_timeout=SEG_TIMEOUT):
     w = World()
     faults = []
     for k in range(nf):
@@ -79,9 +80,9 @@ def seg_payload(d, S, wc, ws, req, resp, nf, kinds, horizon, retries=3):
         faults.append(nl.Fault(idx, kind, arg))
     lan = nl.FaultLAN(faults, world=w)
     cdev = nl.make_device("c", 10, maxApduLengthAccepted=S, segmentationSupported=SEG_BOTH, numberOfApduRetries=retries,
-                          apduTimeout=APDU_TIMEOUT, apduSegmentTimeout=SEG_TIMEOUT, maxSegmentsAccepted=64)
+                          apduTimeout=APDU_TIMEOUT, apduSegmentTimeout=seg_timeout, maxSegmentsAccepted=64)
     sdev = nl.make_device("s", 20, maxApduLengthAccepted=S, segmentationSupported=SEG_BOTH, numberOfApduRetries=retries,
-                          apduTimeout=APDU_TIMEOUT, apduSegmentTimeout=SEG_TIMEOUT, maxSegmentsAccepted=64)
+                          apduTimeout=APDU_TIMEOUT, apduSegmentTimeout=seg_timeout, maxSegmentsAccepted=64)
     client = nl.AppStack(cdev, lan, window=wc)
     server = nl.AppStack(sdev, lan, window=ws)
     reqp = d.bytes(req[0], req[1], 'req_payload')
@@ -120,7 +121,8 @@ def seg_payload(d, S, wc, ws, req, resp, nf, kinds, horizon, retries=3):
             what = hit[0] if hit else "none"
             at = lan.fate.index(hit[0]) if hit else -1
             fr = wire.parse_frame(lan.frames[at][3])[1] if hit else None
-            d.flag(True, "single-fault-not-repaired", fault=what, at=at,
+            req_seg = any(wire.parse_frame(f[3])[1]["type"] == 0 and wire.parse_frame(f[3])[1]["seg"] for f in lan.frames)
+            d.flag(True, "single-fault-not-repaired", fault=what, at=at, seg_timeout=seg_timeout, request_segmented=bool(req_seg),
                    frame=(wire.APDU_NAMES[fr["type"]] if fr else None), seq=(fr["seq"] if fr else None),
                    sender=("client" if hit and str(lan.frames[at][1]) == str(client.address) else "server"),
                    outcome=others, errors=[e[1] for e in d.errors_logged()])
@@ -132,8 +134,9 @@ REPAIRABLE = [nl.DROP, nl.DUP, nl.HOLD]
 
 
 def label(p):
-    return "S%d,w%d/%d,req%s,resp%s,%dx%s" % (p["S"], p["wc"], p["ws"], "-".join(map(str, p["req"])),
-                                             "-".join(map(str, p["resp"])), p["nf"], "".join("DUHSL"[k] for k in p["kinds"]))
+    return "S%d,w%d/%d,req%s,resp%s,%dx%s%s" % (p["S"], p["wc"], p["ws"], "-".join(map(str, p["req"])),
+                                               "-".join(map(str, p["resp"])), p["nf"], "".join("DUHSL"[k] for k in p["kinds"]),
+                                               ",Tseg%d" % p["seg_timeout"] if "seg_timeout" in p else "")
 
 
 def instances(tier):
@@ -151,6 +154,9 @@ def instances(tier):
             # a request window of several segments in flight: loss / overtaking inside the window
             dict(S=50, wc=4, ws=4, req=(150, 150), resp=(2, 2), nf=1, kinds=REPAIRABLE, horizon=14),
             dict(S=50, wc=8, ws=3, req=(200, 200), resp=(2, 2), nf=1, kinds=[nl.DROP, nl.HOLD], horizon=14),
+            # the library's default timers: segment timeout 5 s, longer than the 3 s APDU timeout
+            dict(S=50, wc=2, ws=2, req=(2, 2), resp=(60, 60), nf=1, kinds=REPAIRABLE, horizon=12, seg_timeout=5000),
+            dict(S=50, wc=2, ws=2, req=(60, 60), resp=(60, 60), nf=1, kinds=REPAIRABLE, horizon=14, seg_timeout=5000),
             # lengths on both sides of the boundaries (unsegmented/2 segments, 2/3 segments), no fault: pure
             # slicing, segment count, more-follows and reassembly
             dict(S=50, wc=2, ws=2, req=(33, 37), resp=(2, 2), nf=0, kinds=[nl.DROP], horizon=0),
@@ -177,6 +183,11 @@ def instances(tier):
             for (req, resp) in [((60, 60), (2, 2)), ((2, 2), (60, 60))]:
                 c = dict(S=50, wc=2, ws=2, req=req, resp=resp, nf=2, kinds=[k1] if False else REPAIRABLE, horizon=10)
                 out.append(Inst(seg_payload, c, budget=900, path_timeout=90, label=label(c) + ",k1=%d" % k1))
+        # the library's default timers (segment timeout 5 s > APDU timeout 3 s)
+        for (req, resp) in [((60, 60), (2, 2)), ((2, 2), (60, 60)), ((60, 60), (60, 60)), ((100, 100), (100, 100)),
+                            ((2, 2), (150, 150))]:
+            c = dict(S=50, wc=2, ws=2, req=req, resp=resp, nf=1, kinds=REPAIRABLE, horizon=24, seg_timeout=5000)
+            out.append(Inst(seg_payload, c, budget=600, path_timeout=90, label=label(c)))
         # S = 128
         for (req, resp) in [((130, 130), (2, 2)), ((2, 2), (260, 260))]:
             c = dict(S=128, wc=2, ws=2, req=req, resp=resp, nf=1, kinds=REPAIRABLE, horizon=14)
